@@ -478,6 +478,43 @@ def main():
         except Exception as ex:
             npred += 1; failures["est-script"] += 1
             if first_pred is None: first_pred = (el, "geometric::EST (scripted): no observation (%s) %s" % (ex, a[:80]))
+    # (g) geometric::RRTstar as a whole (k-nearest, delayed collision checking; path length and the direction-dependent mechanical work)
+    #     against RrtStarModel.star_solve on primitive floats: every motion with parent, incCost and cost, the report with stored cost / optimized
+    #     (lib/rrtstar_scripts.py, shared with the C04 check, which judges the cost bookkeeping of the same kind of runs)
+    import rrtstar_scripts as rss
+    slines, sterms = rss.gen(rng, 120 if quick else 2500)
+    rcs, ocs, ecs, scs = vf.sh([rdrv], input="\n".join(slines) + "\n", timeout=900); c.step("correspond:impl-rrtstar", rdrv, scs, rcs == 0)
+    isl = [l for l in ocs.split("\n") if l.startswith("rrts")]
+    msl = []; tms2 = 0.0
+    for a0 in range(0, len(sterms), 120):
+        src = "From Coq Require Import Floats List. From OmplV Require Import EstFloat RrtStarFloat. Import ListNotations.\nLocal Open Scope float_scope.\nEval vm_compute in [\n" + ";\n".join(sterms[a0:a0 + 120]) + "].\n"
+        pth = os.path.join(c.outdir, "star_cases_%d.v" % a0); open(pth, "w").write(src)
+        rcm, ocm, ecm, scm = vf.sh("timeout 1500 coqc -Q %s OmplV %s" % (vf.COQ, pth), timeout=1600); tms2 += scm
+        if rcm != 0: c.broken.append("model evaluation (coqc star_cases) failed: " + (ecm or ocm)[-300:]); break
+        txt = ocm[ocm.index("["):ocm.rindex("]") + 1].replace("%float", "").replace(";", ",")
+        msl += eval(txt, {"__builtins__": {}, "infinity": float("inf"), "neg_infinity": float("-inf"), "nan": float("nan")})
+    c.step("correspond:model-rrtstar", "coqc star_cases_*.v (Eval vm_compute, RrtStarFloat on PrimFloat)", tms2, not c.broken)
+    nstar_bad = 0; star_stats = collections.Counter()
+    for k, sl in enumerate(slines):
+        a = isl[k].strip() if k < len(isl) else "<no output>"
+        try:
+            jd = rss.judge(sl, a); rep = jd["rep"]
+            star_stats["none" if rep[0] != "1" else ("exact" if rep[1] == "0" else "approximate")] += 1; star_stats["nodes"] += len(jd["nodes"])
+            star_stats["rewired"] += sum(1 for j_, t in enumerate(jd["nodes"]) if int(t[2]) > j_)
+            if k < len(msl):
+                m = msl[k]; same = [fb(float(x)) for x in m[0]] == jd["itree"] and [fb(float(x)) for x in m[1]] == jd["irep"]
+                if not same and jd["dup"]: star_stats["ties_no_verdict"] += 1          # equal keys in std::sort (duplicate states): the order is the library's choice
+                elif not same:
+                    nstar_bad += 1; ndiff += 1
+                    if first_diff is None or len(sl) < len(first_diff[0]): first_diff = (sl, "geometric::RRTstar: implementation '%s' RrtStarModel (motions, report) %r" % (a[:400], m))
+            if jd["path_bad"]:
+                npred += 1; failures["rrtstar-script"] += 1
+                if first_pred is None: first_pred = (sl, "geometric::RRTstar (scripted): " + jd["path_bad"])
+            if jd["cost_bad"]: star_stats["cost_bookkeeping_failures(C04)"] += 1
+        except Exception as ex:
+            npred += 1; failures["rrtstar-script"] += 1
+            if first_pred is None: first_pred = (sl, "geometric::RRTstar (scripted): no observation (%s) %s" % (ex, a[:80]))
+    c.cov.update({"rrtstar_scripts": len(slines), "rrtstar_disagreements": nstar_bad, "rrtstar_reports": dict(star_stats)})
     c.cov.update({"est_scripts": len(elines), "est_disagreements": nest_bad, "est_reports": dict(est_stats)})
     c.cov.update({"lazyrrt_scripts": len(llines), "lazyrrt_disagreements": nlz_bad, "lazyrrt_reports": dict(lz_stats)})
     c.cov.update({"rrtconnect_scripts": len(clines), "rrtconnect_disagreements": nrc_bad, "rrtconnect_reports": dict(rc_stats)})
